@@ -8,6 +8,21 @@ CLAIMED = {
    text="Every schedule of every generated program (<=3 threads, <=3-4 ops each over Mutex/RwLock lock/try/unlock incl. re-entrant tries) is executed against the real shuttle::sync primitives and co-simulated on a contract model (holder/readers/writer): each return value, each point where a task that could run is not offered, and each ending must be allowed by the model. Exhaustive within the stated program sizes.",
    note="Trusted: the reference model (Appendix A of DESIGN.md), the explorer's determinism self-check, Shuttle's own Task::runnable() flags only for preemption counting. Small-scope hypothesis for program size.",
    design="DESIGN.md §4 C04"),
+ "C05": dict(level="model_checking", engine="e2-sync",
+   technique="stateless exhaustive exploration of real Condvar/Barrier/Once/park programs under the explorer-scheduler + explicit-state BFS of reference models + step-by-step co-simulation of every execution",
+   text="Every schedule of every generated program over Condvar wait/wait_while/notify_one/notify_all (2-4 waiters/notifiers, racing notify_one, the 5-thread epoch scenario), Barrier (bounds 0-3, reuse, two barriers), Once (racing and nested call_once, is_completed), park/unpark (tokens, double unpark, spurious wake-ups), also inside thread::scope bodies, is run on the real primitives and co-simulated on contract models: a wait returns only after a matching notification, notify_one releases at most one present waiter, barrier groups/leader, exactly one initialiser, token is boolean; lost wake-ups show up as a model-enabled task that is not offered or as a deadlock the model does not have.",
+   note="Trusted: reference models (Appendix A), explorer determinism self-check. No spurious Condvar wake-ups are modelled because the property says wait returns only after a notification. Small-scope hypothesis.",
+   design="DESIGN.md §4 C05"),
+ "C06": dict(level="model_checking", engine="e2-mpsc",
+   technique="stateless exhaustive exploration of real mpsc programs under the explorer-scheduler + explicit-state BFS of a FIFO channel model + step-by-step co-simulation of every execution",
+   text="Every schedule of every generated program (1-3 senders incl. main, one receiver, capacities unbounded/0/1/2, send/try_send/recv/try_recv, explicit drop of every endpoint at every position, recv inside scope bodies) on the real channels, co-simulated on a FIFO model with FIFO blocked-sender queue: every returned value/error, every blocking and every wake-up must be allowed by the model (exactly-once, order, capacity, rendezvous hand-off, drain-before-disconnect follow from the model's state invariants).",
+   note="Trusted: the channel model (Appendix A); loose variant (blocked senders in any order) judges return values, strict (FIFO, Shuttle's documented discipline) judges which tasks must be runnable. Small-scope hypothesis.",
+   design="DESIGN.md §4 C06"),
+ "C07": dict(level="model_checking", engine="e2-thread",
+   technique="stateless exhaustive exploration of real spawn/join/scope/thread-local programs under the explorer-scheduler + reference model co-simulation + life-cycle monitor over logged init/drop events",
+   text="Every schedule of every generated program with nested spawns, joins in every order and by non-parents, unjoined threads, scopes (nested, with 1-2 scoped threads), named threads, thread::current(), and three thread-local keys whose destructors log, touch another key, or contain a scheduling point and touch themselves, plus a const-initialised key: closure runs once, join returns the closure's value after all of the child's destructors, scope end waits for scoped threads, per-thread instances, destruction exactly once in initialisation order, AccessError instead of resurrection, ids/names consistent.",
+   note="Trusted: the expected thread-local event sequence computed by the monitor from the program text; model for spawn/join/scope. Small-scope hypothesis.",
+   design="DESIGN.md §4 C07"),
 }
 
 REASON_WIP = "check not built yet (work in progress; see DESIGN.md for the plan)"
